@@ -1,0 +1,129 @@
+//go:build verif
+
+package dragonboat
+
+import (
+	"github.com/lni/dragonboat/v4/config"
+	"github.com/lni/dragonboat/v4/internal/logdb"
+	"github.com/lni/dragonboat/v4/internal/raft"
+	"github.com/lni/dragonboat/v4/internal/registry"
+	"github.com/lni/dragonboat/v4/internal/rsm"
+	pb "github.com/lni/dragonboat/v4/raftpb"
+)
+
+// White-box access for the C07 verification harness (membership glue of
+// node.go). Compiled only with -tags verif. VerifC07Node holds a real *node
+// with the fields node.ApplyConfigChange, applyConfigChange,
+// configChangeProcessed, RestoreRemotes, notifyConfigChange and
+// requestConfigChange read: a real raft.Peer (raft.Launch over an empty
+// LogReader), the real node registry, the real pendingConfigChange and the
+// rsm.StateMachine the harness builds with this node as its rsm.INode. The
+// methods below call the unexported method of the same name; the only thing
+// the harness does in place of raft is to move a requested config change from
+// the request channel into a committed log entry.
+type VerifC07Node struct {
+	n   *node
+	ccC chan configChangeRequest
+	reg *registry.Registry
+}
+
+// NewVerifC07Node builds the node; peers are the initial members (as given to
+// StartReplica), mk creates the state machine around the node.
+func NewVerifC07Node(cfg config.Config, peers map[uint64]string,
+	validator config.TargetValidator,
+	mk func(rsm.INode) *rsm.StateMachine) *VerifC07Node {
+	reg := registry.NewNodeRegistry(1, nil)
+	ccC := make(chan configChangeRequest, 1)
+	n := &node{
+		shardID:             cfg.ShardID,
+		replicaID:           cfg.ReplicaID,
+		config:              cfg,
+		nodeRegistry:        reg,
+		stopC:               make(chan struct{}),
+		sysEvents:           &sysEventListener{},
+		pipeline:            verifC07Pipeline{},
+		toApplyQ:            rsm.NewTaskQueue(),
+		toCommitQ:           rsm.NewTaskQueue(),
+		initializedC:        make(chan struct{}),
+		configChangeC:       ccC,
+		pendingConfigChange: newPendingConfigChange(ccC, false),
+		validateTarget:      validator,
+	}
+	n.sm = mk(n)
+	lr := logdb.NewLogReader(cfg.ShardID, cfg.ReplicaID, nil)
+	pas := make([]raft.PeerAddress, 0, len(peers))
+	for k, v := range peers {
+		pas = append(pas, raft.PeerAddress{ReplicaID: k, Address: v})
+		reg.Add(cfg.ShardID, k, v) // NodeHost.startShard / bootstrapShard
+	}
+	n.p = raft.Launch(cfg, lr, nil, pas, len(peers) > 0, true)
+	n.setInitialized()
+	return &VerifC07Node{n: n, ccC: ccC, reg: reg}
+}
+
+type verifC07Pipeline struct{}
+
+func (verifC07Pipeline) setCloseReady(*node)    {}
+func (verifC07Pipeline) setStepReady(uint64)    {}
+func (verifC07Pipeline) setCommitReady(uint64)  {}
+func (verifC07Pipeline) setApplyReady(uint64)   {}
+func (verifC07Pipeline) setStreamReady(uint64)  {}
+func (verifC07Pipeline) setSaveReady(uint64)    {}
+func (verifC07Pipeline) setRecoverReady(uint64) {}
+
+// SM returns the replica's state machine.
+func (v *VerifC07Node) SM() *rsm.StateMachine { return v.n.sm }
+
+// RequestConfigChange is node.requestConfigChange.
+func (v *VerifC07Node) RequestConfigChange(t pb.ConfigChangeType, replicaID uint64,
+	target string, orderID uint64, timeout uint64) (*RequestState, error) {
+	return v.n.requestConfigChange(t, replicaID, target, orderID, timeout)
+}
+
+// TakeRequested removes the requested config change from the channel the step
+// worker reads (node.handleConfigChange) and returns what would be proposed.
+func (v *VerifC07Node) TakeRequested() (key uint64, data []byte, ok bool) {
+	select {
+	case r := <-v.ccC:
+		return r.key, r.data, true
+	default:
+	}
+	return 0, nil, false
+}
+
+// Members is what the raft peer holds.
+func (v *VerifC07Node) Members() (voters []uint64, nonVotings []uint64,
+	witnesses []uint64, pending bool) {
+	return raft.VerifC07Members(&v.n.p)
+}
+
+// Resolve looks a replica up in the node registry.
+func (v *VerifC07Node) Resolve(replicaID uint64) (string, bool) {
+	a, _, err := v.reg.Resolve(v.n.shardID, replicaID)
+	return a, err == nil
+}
+
+// Stopped is node.stopped (set by requestRemoval).
+func (v *VerifC07Node) Stopped() bool { return v.n.stopped() }
+
+// ShardInfo returns what notifyConfigChange published last.
+func (v *VerifC07Node) ShardInfo() (ShardInfo, bool) {
+	if ci, ok := v.n.shardInfo.Load().(*ShardInfo); ok && ci != nil {
+		return *ci, true
+	}
+	return ShardInfo{}, false
+}
+
+// ClosePendingConfigChange is what node.close does to the config change
+// request table once NodeHost stops the removed replica.
+func (v *VerifC07Node) ClosePendingConfigChange() {
+	v.n.requestRemoval()
+	v.n.pendingConfigChange.close()
+}
+
+// Tick advances the logical clock of the config change request table and runs
+// its gc, as node.tick does.
+func (v *VerifC07Node) Tick() {
+	v.n.pendingConfigChange.tick(1)
+	v.n.pendingConfigChange.gc()
+}
